@@ -32,21 +32,21 @@ CHECKS = {
   'engine': 'sim_machine',
   'technique': 'deterministic simulation: seeded store/load/instruction histories on the real symbolic machine, refinement-checked against a concrete byte-addressed reference machine under several valuations',
   'text': 'Seeded exploration with a reference model: histories of stores, loads and state-moving instructions (length 1..12) are executed by the real emulator and by an independent little-endian byte-memory interpreter of the same lifted semantics; every register and a dense window of memory read-backs of widths 8/16/32 are compared under several valuations of the initial symbols. The small space named by the property (<=2 stores + 1 load, widths 8/16/32, offsets 0..7, constant or symbolic base) is sampled without replacement: completely in the thorough tier, a stated fraction in the quick tier.',
-  'note': 'Trusted: the ~300-line reference evaluator (standard bit-vector meaning of the IR operators); one symbolic data base per history and a stack far away from it (the non-aliasing assumption miasmX itself makes); arithmetic/logic instructions are tallied only (their mismatches come from the simplifier, C05/C06).',
+  'note': 'Trusted: the ~300-line reference evaluator (standard bit-vector meaning of the IR operators); one symbolic data base per history and a stack far away from it (the non-aliasing assumption miasmX itself makes); histories on which emulation raises, whose repe/repne flag is not concrete at some step, or whose lifted assignment is ill-typed are discarded and counted; arithmetic/logic instructions are tallied only (their mismatches come from the simplifier, C05/C06).',
   'design': 'DESIGN.md 4.3',
  },
  'C10': {
   'engine': 'sim_stream',
   'technique': 'deterministic simulation of the reader seam: seeded byte images behind three stream back ends with EOF/EIO faults at every field boundary, suffix-equivalence and over-read oracles on the recorded read log',
-  'text': 'Decides the stream clauses only (offset bookkeeping, suffix equivalence, no over-read, truncation reported as absent, same behaviour on every back end and under injected EOF/EIO at any read). The two for-all-inputs totality clauses are not a simulation target; crashes seen on arbitrary bytes are tallied under out_of_scope_observations and never decide.',
-  'note': 'Trusted: fake file / virt back ends written for this check; images are built from real assembler output, structured random encodings and junk; PYTHONHASHSEED pinned to 0.',
+  'text': 'Decides the stream clauses only (offset bookkeeping incl. seek/open positioning, shared file handles and sparse images beyond 4 GiB, suffix equivalence, no over-read, truncation at every length reported as absent, same behaviour on every back end and under injected EOF/EIO at any read, agreement of a sample of decodes with a pristine process). The two for-all-inputs totality clauses are not a simulation target; crashes seen on arbitrary bytes are tallied under out_of_scope_observations and never decide.',
+  'note': 'Trusted: fake file / virt back ends written for this check; images are built from real assembler output, structured random encodings and junk; PYTHONHASHSEED pinned to 0; after a failed decode the stream offset is unspecified.',
   'design': 'DESIGN.md 4.2',
  },
  'C13': {
   'engine': 'sim_hashseed',
   'technique': 'deterministic simulation of interpreter start-up nondeterminism: the same seeded workload in fresh interpreters differing only in PYTHONHASHSEED and allocation pattern; logs compared item by item',
-  'text': 'Decides the seed/process-independence clause: simplified forms, lifted semantics, rendered instructions and state dumps must be byte-identical across fresh interpreters with different string-hash keys and perturbed allocation order. Idempotence and operand-order insensitivity are checked on the same generated items inside each interpreter and are labelled generated-input checks, not simulation.',
-  'note': 'Trusted: deterministic call budget instead of wall clock; items on which any interpreter hits the budget or raises in the reference interpreter are dropped for all.',
+  'text': 'Decides the seed/process-independence clause: simplified forms, lifted semantics, rendered instructions (incl. operands adding several symbols) and state dumps must be byte-identical across fresh interpreters with different string-hash keys and perturbed allocation order. Idempotence, operand-order insensitivity and insensitivity to object sharing are checked on the same generated items inside each interpreter and are labelled generated-input checks, not simulation.',
+  'note': 'Trusted: deterministic call budget instead of wall clock; items on which any interpreter hits the budget, the alarm or an exception are dropped for all; an address-order difference must show under 2 of 6 seeded allocation patterns to be reported.',
   'design': 'DESIGN.md 4.4',
  },
 }
